@@ -64,4 +64,98 @@ structure SecondClause (M0 M : MG) : Prop where
   maximal : Maximal M
   equiv : MarkovEquiv M0 M
 
+/-! ## The clauses decided at run time by the validator (`c09valid`) -/
+
+/-- same node *set*.  The driver protocol transmits the node list of the implementation's result in
+    canonical (sorted) order, so only the set of nodes is observable at run time. -/
+def SameNodes (A B : List Nat) : Prop := ∀ v, v ∈ A ↔ v ∈ B
+
+/-- `Structural` with "same nodes" read as equality of node *sets* (the other clauses do not mention
+    the node list): this is what the run-time validator decides.  `Structural P M` implies it, and it
+    is `Structural P M` as soon as the two node lists are equal (`structuralS_iff_of_nodes_eq`). -/
+structure StructuralS (P M : MG) : Prop where
+  nodes : SameNodes M.nodes P.nodes
+  adj : ∀ a b, (markAt M a b).isSome ↔ (markAt P a b).isSome
+  keepHead : ∀ a b, markAt P a b = some .head → markAt M a b = some .head
+  keepTail : ∀ a b, markAt P a b = some .tail → markAt M a b = some .tail
+  noCircle : ∀ a b, markAt M a b ≠ some .circle
+
+theorem Structural.toS {P M : MG} (h : Structural P M) : StructuralS P M :=
+  ⟨fun _ => by rw [h.nodes], h.adj, h.keepHead, h.keepTail, h.noCircle⟩
+
+theorem structuralS_iff_of_nodes_eq {P M : MG} (hn : M.nodes = P.nodes) :
+    StructuralS P M ↔ Structural P M :=
+  ⟨fun h => ⟨hn, h.adj, h.keepHead, h.keepTail, h.noCircle⟩, Structural.toS⟩
+
+/-- every unshielded collider of `M` is already marked in `P` -/
+def NoNewUC (P M : MG) : Prop := ∀ a c b, UC M a c b → UC P a c b
+
+/-- `M` is a MAG without undirected edges -/
+structure IsMAG (M : MG) : Prop where
+  noUn : M.un = []
+  noCirc : M.circ = []
+  ancestral : Ancestral M
+  maximal : Maximal M
+
+/-- **the class clauses of C09**, as one proposition: `P` the PAG handed to `pag_to_mag`, `M0` the MAG
+    whose PAG `P` is, `M` the returned graph.  (`ancestral` contains "no directed cycle".) -/
+structure ClassClauses (P M0 M : MG) : Prop where
+  structural : StructuralS P M
+  ancestral : Ancestral M
+  noNewUC : NoNewUC P M
+  noUn : M.un = []
+  maximal : Maximal M
+  nodes0 : SameNodes M0.nodes M.nodes
+  equiv : MarkovEquiv M0 M
+
+/-- the clauses checked when no source MAG is given (`c09valid` without `sN=`): first sentence of C09 -/
+structure FirstClauses (P M : MG) : Prop where
+  structural : StructuralS P M
+  ancestral : Ancestral M
+  noNewUC : NoNewUC P M
+
+/-- the class clauses are the two sentences of the property (with the result a directed/bidirected
+    graph on the nodes of the source MAG) -/
+theorem classClauses_iff {P M0 M : MG} (hn : M.nodes = P.nodes) :
+    ClassClauses P M0 M ↔
+      (FirstClause P M ∧ SecondClause M0 M ∧ M.un = [] ∧ SameNodes M0.nodes M.nodes) := by
+  constructor
+  · intro h
+    exact ⟨⟨(structuralS_iff_of_nodes_eq hn).mp h.structural, h.ancestral, h.noNewUC⟩,
+      ⟨h.ancestral, h.maximal, h.equiv⟩, h.noUn, h.nodes0⟩
+  · rintro ⟨h1, h2, h3, h4⟩
+    exact ⟨h1.structural.toS, h1.ancestral, h1.noNewUC, h3, h2.maximal, h4, h2.equiv⟩
+
+/-- the class enumerated by the PAG oracle (`equivClass M0`, up to the representation of the edge
+    lists): the well-formed MAGs without undirected edges on the nodes of `M0` that are Markov
+    equivalent to `M0` -/
+structure Member (M0 M' : MG) : Prop where
+  nodes : M'.nodes = M0.nodes
+  wf : M'.WF
+  mag : IsMAG M'
+  equiv : MarkovEquiv M0 M'
+
+/-- `P` is the PAG of the MAG `M0`, from the definition: same nodes and adjacencies, and an endpoint
+    mark is an arrowhead (tail) iff every member of the Markov equivalence class of `M0` has an
+    arrowhead (tail) there -/
+structure IsPagOf (M0 P : MG) : Prop where
+  nodes : P.nodes = M0.nodes
+  adj : ∀ a b, (markAt P a b).isSome ↔ (markAt M0 a b).isSome
+  head : ∀ a b, (markAt M0 a b).isSome →
+    (markAt P a b = some .head ↔ ∀ M', Member M0 M' → markAt M' a b = some .head)
+  tail : ∀ a b, (markAt M0 a b).isSome →
+    (markAt P a b = some .tail ↔ ∀ M', Member M0 M' → markAt M' a b = some .tail)
+
+/-! ## what the validator requires of its *inputs* (the PAG and the source MAG sent by the harness) -/
+
+/-- every endpoint of an edge, in any of the four layers, is a node -/
+def WF4 (G : MG) : Prop := ∀ e ∈ G.dir ++ G.bi ++ G.un ++ G.circ, e.1 ∈ G.nodes ∧ e.2 ∈ G.nodes
+
+/-- the source graph is a graph with directed and bidirected edges between distinct nodes -/
+structure SourceOK (M0 : MG) : Prop where
+  wf : WF4 M0
+  noUn : M0.un = []
+  noCirc : M0.circ = []
+  noLoop : ∀ e ∈ M0.dir ++ M0.bi, e.1 ≠ e.2
+
 end C09
